@@ -171,4 +171,80 @@ def merge (fn : Option Nat) (reverse : Bool) (srcs : List Nat) (fuel : Nat) : M 
   let hs ← heads fn srcs 0 []
   mergeLoop fn reverse hs fuel
 
+/-! ## `set` / `dict`: the collection is modelled by the list of its distinct elements in first-insertion order -/
+
+mutual
+/-- can the value be a set element / dict key: lists are unhashable, tuples are hashable iff their members are -/
+def hashable : Val → Bool
+  | .lst _ => false
+  | .tup vs => hashableList vs
+  | _ => true
+def hashableList : List Val → Bool
+  | [] => true
+  | v :: r => hashable v && hashableList r
+end
+
+mutual
+/-- `hash(a) == hash(b) and a == b` on the value domain: user items by key (only among themselves), numbers
+    and bools by numeric value, `None`, the fill object, tuples elementwise -/
+def hashEq : Val → Val → Bool
+  | .obj _ k, .obj _ l => k == l
+  | .int n, .int m => n == m
+  | .int n, .bool b => n == (if b then 1 else 0)
+  | .bool b, .int n => n == (if b then 1 else 0)
+  | .bool a, .bool b => a == b
+  | .none, .none => true
+  | .fill, .fill => true
+  | .tup a, .tup b => hashEqList a b
+  | _, _ => false
+def hashEqList : List Val → List Val → Bool
+  | [], [] => true
+  | x :: xs, y :: ys => hashEq x y && hashEqList xs ys
+  | _, _ => false
+end
+
+/-- `set.add`: an element equal to one already present is dropped (the first one stays) -/
+def setInsert (acc : List Val) (x : Val) : List Val :=
+  if acc.any (fun y => hashEq y x) then acc else acc ++ [x]
+
+/-- `{element async for element in it}` / `set(iterable)`: an unhashable element raises `TypeError` as it arrives -/
+def setLoop (s : Nat) : List Val → Nat → M (List Val)
+  | _, 0 => raise .outOfFuel
+  | acc, fuel+1 => do
+    match ← pull s with
+    | none => pure acc
+    | some x =>
+      if hashable x then setLoop s (setInsert acc x) fuel else raise .typeError
+
+/-- `d[k] = v`: an equal key keeps its first key object and position, the value is replaced -/
+def dictInsert (acc : List (Val × Val)) (k v : Val) : List (Val × Val) :=
+  if acc.any (fun p => hashEq p.1 k) then acc.map (fun p => if hashEq p.1 k then (p.1, v) else p)
+  else acc ++ [(k, v)]
+
+/-- `key, value = item`: a two-element tuple or list; another length is `ValueError`, a non-sequence `TypeError` -/
+def unpackPair : Val → Except Exc (Val × Val)
+  | .tup [k, v] => .ok (k, v)
+  | .lst [k, v] => .ok (k, v)
+  | .tup _ => .error .valueError
+  | .lst _ => .error .valueError
+  | _ => .error .typeError
+
+/-- `{key: value async for key, value in it}` / `dict(iterable)` -/
+def dictLoop (s : Nat) : List (Val × Val) → Nat → M (List (Val × Val))
+  | _, 0 => raise .outOfFuel
+  | acc, fuel+1 => do
+    match ← pull s with
+    | none => pure acc
+    | some x => do
+      let (k, v) ← liftExc (unpackPair x)
+      if hashable k then dictLoop s (dictInsert acc k v) fuel else raise .typeError
+
+/-- the value a set / dict is reported as: its elements / `(key, value)` pairs in insertion order -/
+def setVal (l : List Val) : Val := .lst l
+def dictVal (l : List (Val × Val)) : Val := .lst (l.map fun p => .tup [p.1, p.2])
+
+/-- `builtins.set(iterable)` / `builtins.dict(iterable)` (the CPython twins) -/
+def set (s : Nat) (fuel : Nat) : M Val := do pure (setVal (← setLoop s [] fuel))
+def dict (s : Nat) (fuel : Nat) : M Val := do pure (dictVal (← dictLoop s [] fuel))
+
 end AsyncVerif.Std
